@@ -446,7 +446,16 @@ JnpMatmulPlugin._PRIM.def_abstract_eval(JnpMatmulPlugin.abstract_eval)
 def _matmul_batch_rule(
     args: tuple[Any, ...], dims: tuple[Any, ...], **params: Any
 ) -> Any:
-    return broadcast_batcher_compat(JnpMatmulPlugin._PRIM, args, dims, **params)
+    # matmul broadcasts its leading "stack" axes numpy-style, so the shared
+    # elementwise batcher is right as long as every operand keeps its two core
+    # axes per example.  A per-example vector has no stack axes to pad: batch it
+    # through the original implementation (lax.dot_general) instead.
+    if all(np.ndim(x) - (d is not batching.not_mapped) >= 2 for x, d in zip(args, dims)):
+        return broadcast_batcher_compat(JnpMatmulPlugin._PRIM, args, dims, **params)
+    out = jax.vmap(lambda a, b: _matmul_impl(a, b, **params), in_axes=tuple(dims))(
+        *args
+    )
+    return out, 0
 
 
 batching.primitive_batchers[JnpMatmulPlugin._PRIM] = _matmul_batch_rule
